@@ -180,8 +180,9 @@ func (c *chatHandler) handleSessionCommand(packet *chat.SessionPlayerCommand, un
 		if packet.Signed() {
 			if c.disconnectIllegalProtocolState(c.player) {
 				c.log.Info("A plugin tried to deny a command with signable component(s). This is not supported with forceKeyAuthentication enabled.")
+				return nil
 			}
-			return nil
+			// The player stays connected: still pass the acknowledgement through (below).
 		}
 
 		// An unsigned command with a 'last seen' update will not happen as of 1.20.5+, but for earlier versions - we still
